@@ -142,7 +142,13 @@ def ws_history(draw: Any) -> Dict[str, Any]:
             "sched": draw(st.integers(0, 999)),
             "pause_before": draw(st.sampled_from([0.0, T / 2])),
             "pause_open": draw(st.sampled_from([T, 2 * T, 1000 * T])),
-            "end": draw(st.sampled_from(["client_close", "eof", "reset", "server_close"]))}
+            "end": draw(st.sampled_from(["client_close", "eof", "reset", "server_close"])),
+            # websocket_ping_interval: the server's own pings are one more task per session
+            # (as a multiple of T, so that the longest pause sees a few thousand of them)
+            "ping_factor": draw(st.sampled_from([None, None, 0.3, 3.0])),
+            # known finding C07-3: the ping task sleeps on after the session is over and the
+            # handler waits for it; generated cases allow for that one interval and count it
+            "ping_sleep_allowed": True}
 
 
 EPS = 1e-6
@@ -627,6 +633,8 @@ async def run_ws(env: Any, case: Dict[str, Any], app: Any) -> Dict[str, Any]:
 def judge_end(case: Dict[str, Any], obs: Any) -> None:
     be = obs.backend
     tag = {"backend": be, "proto": case["proto"]}
+    if case.get("ping_factor") is not None:
+        tag["server_pings"] = True
     if obs.spin:
         raise Violation("spin", obs.spin, **tag)
     val = obs.value
@@ -655,6 +663,10 @@ def judge_end(case: Dict[str, Any], obs: Any) -> None:
                         f"applications returned at {exits}, handler still alive {obs.alive}",
                         **tag, lost=val["lost_at"] is not None)
     limit = max([gone_at] + exits)
+    if case.get("ping_factor") is not None and case.get("ping_sleep_allowed") \
+            and conn.handler_done_at > limit:
+        limit += case["ping_factor"] * case["T"] + EPS
+        val["adjusted"] = "adjusted:ping_task_sleeps_on"
     if conn.handler_done_at > limit:
         raise Violation("handler_finishes_late", f"connection over at t={gone_at}, last "
                         f"application returned at t={max(exits) if exits else None}, handler "
@@ -672,7 +684,10 @@ def run_case(case: Dict[str, Any]) -> CaseInfo:
         cfg["server_names"] = ["example.com", "x"]
     if case.get("opening") == "h2c_unknown_host":
         cfg["server_names"] = ["example.com", "x"]
+    if case.get("ping_factor") is not None:
+        cfg["websocket_ping_interval"] = case["ping_factor"] * case["T"]
     nontrivial = False
+    adjusted: set = set()
     for be in BACKENDS:
         holder: Dict[str, Any] = {}
         case.pop("_poisoned", None)
@@ -694,7 +709,11 @@ def run_case(case: Dict[str, Any]) -> CaseInfo:
         obs = run_sim(be, cfg, {}, sc, app_factory=factory, sched=case.get("sched", 0))
         judge_end(case, obs)
         nontrivial = nontrivial or obs.value["nontrivial"]
-    classes = ["proto=" + case["proto"], f"T={case['T']}"]
+        if obs.value.get("adjusted"):
+            adjusted.add(obs.value["adjusted"])
+    classes = ["proto=" + case["proto"], f"T={case['T']}"] + sorted(adjusted)
+    if case.get("ping_factor") is not None:
+        classes.append(f"ping_interval={case['ping_factor']}T")
     for s in case.get("steps", []):
         classes.append("op=" + s["op"] + (":" + s["what"] if "what" in s else "")
                        + (":" + s["how"] + "/" + s["during"] if s["op"] == "peer_loss" else ""))
